@@ -1,6 +1,6 @@
 #!/bin/sh
 # usage: confirm_demo.sh <seed dir>...  -- runs each seed's demo in the scratch worktree /tmp/wt_confirm with and without its patch
-WT=/tmp/wt_confirm
+WT=${CONFIRM_WT:-/tmp/wt_confirm}
 [ -d $WT ] || git -C /repo worktree add -q --detach $WT HEAD
 for d in "$@"; do
   git -C $WT checkout -q -- .
